@@ -16,6 +16,7 @@ Definition hs_agrees (c : hs_case) : bool :=
 Fixpoint idxh {A} (bad : A -> bool) (i : N) (l : list A) : list N :=
   match l with [] => [] | x :: r => if bad x then i :: idxh bad (i + 1) r else idxh bad (i + 1) r end.
 Definition hs_mismatches (cs : list hs_case) : list N := idxh (fun c => negb (hs_agrees c)) 0 cs.
-(* the property: B never accepts the session as coming from A (who never talked to B), nor from another network / chain *)
+(* the property: B never accepts the session as coming from A (who never talked to B), nor from another network / chain, nor as
+   coming from B itself (identity 3: a reflected proof) *)
 Definition hs_violations (cs : list hs_case) : list N :=
-  idxh (fun c => hc_accepted c && ((hc_as c =? 1) || negb (h_net (hc_hello c) =? 1) || negb (h_chain (hc_hello c) =? 1))) 0 cs.
+  idxh (fun c => hc_accepted c && ((hc_as c =? 1) || (hc_as c =? 3) || negb (h_net (hc_hello c) =? 1) || negb (h_chain (hc_hello c) =? 1))) 0 cs.
